@@ -347,3 +347,28 @@ MANIFEST_TEXT["C15"] = {
     "technique": "property-based testing (rapid), model-based validity predicate over the whole schedule",
 }
 NOT_APPLICABLE[:] = [e for e in NOT_APPLICABLE if e["property_id"] not in CHECKS]
+
+CHECKS["C17"] = {
+    "test": "TestC17",
+    "quick": {"shards": 8, "checks": 1200},
+    "thorough": {"shards": 16, "checks": 5000},
+    "rule": "honest block histories (C01 shapes, deletions in drawn - mostly unsorted - request order, generated remember flags) on a Stump, a Pollard, a full and a partial "
+            "MapPollard (generated TotalRows; in half of the cases 0, i.e. equal to the rows the forest needs, where a map forest translates and therefore copies nothing). "
+            "Per block ONE set of argument slices is built - deleted hashes, proof targets, proof hashes, leaves, added hashes, previous roots, remember indexes, wants, a second "
+            "proof - each a sub-slice of a larger backing array whose spare capacity holds sentinels, and handed without copying to: Pollard.Prove, MapPollard.Prove, Verify (stump "
+            "roots guarded too), Pollard.Verify, MapPollard.Verify (full; partial with remember), MapPollard.GetMissingPositions, VerifyPartialProof, AddProof, GetProofSubset, "
+            "Stump.Update, Proof.Update (UpdateData fields guarded), Pollard.Modify, MapPollard.Modify (full, partial) and, in a third of the blocks, Undo on all three forests and "
+            "Proof.Undo followed by applying the same data again. After EVERY call every guarded argument (whole backing array, 0..cap) and every slice the library returned "
+            "earlier in the case (proofs, update data, hash lists, roots, stump snapshots, missing positions; last 60) is compared with its snapshot. Non-trivial: a block with >=2 "
+            "deletions given in non-ascending target order on a state that already has a deleted leaf.",
+    "assumptions": COMMON_ASSUME + ["the spare capacity behind a passed slice is the caller's memory (callers pass sub-slices such as hashes[:1]); writes there are reported with their own message",
+                                    "a wrong root or a refused honest call with all guards intact is another property's business (counted as setup-failed, not reported here)"],
+}
+MANIFEST_TEXT["C17"] = {
+    "level_text": "Exploration: every listed call on generated honest histories with sentinel-guarded argument slices and a ledger of earlier results, compared after every call; "
+                  "the same block data is verified, applied to all implementations, undone and re-applied without copying.",
+    "design_ref": "DESIGN.md section 6 C17",
+    "level_note": TRUST,
+    "technique": "property-based testing (rapid), invariant over the call history (argument and earlier-result snapshots incl. spare capacity)",
+}
+NOT_APPLICABLE[:] = [e for e in NOT_APPLICABLE if e["property_id"] not in CHECKS]
